@@ -74,7 +74,7 @@ REQUIRED = {'mul_scalar-value': 60, 'mul_scalar-form': 60, 'norm-value': 60,
     'orth-tensor': 60, 'orth-probe': 60, 'accuracy-value': 40,
     'accuracy-saturation': 20, 'truncate-finite': 30, 'truncate-error': 30,
     'agree-plain': 30, 'pow2-mul_scalar': 40, 'pow2-norm': 40,
-    'pow2-orth': 20}
+    'pow2-orth': 20, 'narrow-int-exact': 20}
 REQUIRED_EVENTS = {'beyond-double-range': 40, 'd>=1000': 8,
     'acc-saturated-high': 3, 'acc-minus-one': 3,
     'truncate-rank-lowered': 10, 'truncate-d>=1000': 2,
@@ -1055,6 +1055,9 @@ def run_case(case, ctx):
     if not edge and 3 <= d <= 1000:
         mixed_dtypes(ctx, teneva, rng, d)
 
+    if not edge and d <= 50 and rng.random() < 0.5:
+        narrow_int_long_modes(ctx, teneva, rng)
+
     # power-of-two metamorphic tests (core families only: an edge family is
     # outside the range where every local product is exact under scaling)
     if not edge:
@@ -1182,6 +1185,49 @@ def mixed_dtypes(ctx, teneva, rng, d):
     check_mul_scalar(ctx, teneva, base, Y2, s12, f'<Y1, Y2>, Y1 of dtype '
         f'{kind}')
     ctx.event('mixed-dtype-operands:' + kind)
+
+
+def narrow_int_long_modes(ctx, teneva, rng):
+    """Both operands in a narrow integer dtype, long modes: every entry and
+    every product of two entries fits the dtype, the sum over one mode does
+    not (the values decide, not the width the cores are stored in)."""
+    kind, lo, hi, dmax = [('int8', -3, 3, 3), ('uint8', 0, 5, 3),
+        ('int16', -60, 60, 2), ('int8', -11, 11, 2)][int(rng.integers(4))]
+    d = int(rng.integers(2, dmax + 1))
+    n = [int(rng.integers(64, 129)) for _ in range(d)]
+    r = [1] + [int(rng.integers(1, 3)) for _ in range(d - 1)] + [1]
+    A = [rng.integers(lo, hi + 1, size=(r[k], n[k], r[k + 1])).astype(kind)
+        for k in range(d)]
+    B = [rng.integers(lo, hi + 1, size=(r[k], n[k], r[k + 1])).astype(kind)
+        for k in range(d)]
+    Av = [np.asarray(G, dtype=float) for G in A]
+    Bv = [np.asarray(G, dtype=float) for G in B]
+    NA, NB = normcores(Av), normcores(Bv)
+    sAB, sAA = sweep(NA, NB), sweep(NA, NA)
+    # exact values in Python integers (independent of any dtype)
+    def exact(P, Q):
+        v = [[1]]
+        for G, H in zip(P, Q):
+            G, H = G.astype(object), H.astype(object)
+            M = np.einsum('aib,cid->acbd', G, H).reshape(
+                G.shape[0] * H.shape[0], -1)
+            v = np.dot(np.array(v, dtype=object), M)
+        return int(v[0][0])
+    eAB, eAA = exact(A, B), exact(A, A)
+    what = f'{kind} cores, modes {n}'
+    check_mul_scalar(ctx, teneva, A, B, sAB, f'<A, B>, {what}')
+    check_norm(ctx, teneva, A, sAA, f'norm(A), {what}')
+    ok, got = call(ctx, 'narrow-int-exact', None, teneva.mul_scalar, A, B)
+    if ok:
+        ctx.check('narrow-int-exact', is_real(got) and float(got) == float(eAB),
+            f'mul_scalar(A, B), {what}: {got!r} but the exact integer value '
+            f'is {eAB}')
+    ok, got = call(ctx, 'narrow-int-exact', None, teneva.norm, A)
+    if ok:
+        ctx.check('narrow-int-exact', is_real(got) and abs(float(got) -
+            float(np.sqrt(float(eAA)))) <= 4 * EPS * float(np.sqrt(float(eAA))),
+            f'norm(A), {what}: {got!r} but the exact value is sqrt({eAA})')
+    ctx.event('narrow-int-long-modes:' + kind)
 
 
 def accuracy_family(ctx, teneva, rng, Y, NY, sYY, info, edge):
